@@ -2,6 +2,7 @@ package zzsimrt
 
 import (
 	"runtime"
+	"sync/atomic"
 	"syscall"
 	"unsafe"
 )
@@ -23,6 +24,11 @@ type Site struct {
 }
 
 var Sites []Site
+
+// LibraryStartsGoroutines is set by the generated site table when the library
+// has `go` statements of its own: every scheduling point then checks that it is
+// the turn holder who reached it (otherwise the check is sampled, as a safety net).
+var LibraryStartsGoroutines bool
 
 const MaxG = 16
 
@@ -381,9 +387,9 @@ func switchTo(next int, site int) {
 func Yield(site int) {
 	if !simActive {
 		if CountSteps {
-			Steps++
-			if StepLimit > 0 && Steps > StepLimit {
-				Steps = 0
+			// (atomic: a library that fetches in parallel reaches this from several goroutines)
+			if n := atomic.AddUint64(&Steps, 1); StepLimit > 0 && n > StepLimit {
+				atomic.StoreUint64(&Steps, 0)
 				panic(StepBudgetExceeded{StepLimit})
 			}
 		}
@@ -407,7 +413,7 @@ type StepBudgetExceeded struct{ Limit uint64 }
 //go:norace
 func yield(site int) {
 	g := cur
-	if step&31 == 0 && gs[g].goid != goid() {
+	if (LibraryStartsGoroutines || step&31 == 0) && gs[g].goid != goid() {
 		// (sampled: the id lookup costs about as much as thirty scheduling points)
 		unmanaged++ // not the caller that holds the turn: a goroutine the library started itself
 		return
